@@ -1,7 +1,7 @@
 ; harness ListingAtStartUp assert L3-listed-iff-requested-matching-and-permitted expected unsat
 (set-logic ALL)
-(declare-const perm_Wallet1_acc1 Bool)
-(define-fun t57 () Bool (not perm_Wallet1_acc1))
-(assert t57)
-(assert perm_Wallet1_acc1)
+(declare-const perm_Wallet1_acc2 Bool)
+(define-fun t52 () Bool (not perm_Wallet1_acc2))
+(assert t52)
+(assert perm_Wallet1_acc2)
 (check-sat)
